@@ -343,6 +343,8 @@ def run(seed=0, rounds=3):
                lambda I: [y_ for mx in I.ex.ghost.get("dim_maxes", []) for o in range(3) for y_ in [mx["att"]([z3.IntVal(o)])] + [mx["ub"]([z3.IntVal(o)], z3.IntVal(j)) for j in range(3)]])
         admits("sort dim 1 (values, indices)", lambda I, a: tuple(M["sort"](I, a, 1)), lambda a: tuple(a.sort(dim=1, stable=True)), [(xi, "long")],
                lambda I: [y_ for so in I.ex.ghost.get("sorts", []) for o in range(3) for a_ in range(3) for y_ in [so["fwd"](z3.IntVal(o), z3.IntVal(a_)), so["bwd"](z3.IntVal(o), z3.IntVal(a_))] + [so["sorted"](z3.IntVal(o), z3.IntVal(a_), z3.IntVal(b_)) for b_ in range(3)]])
+        admits("min over a vector", lambda I, a: M["min"](I, a), lambda a: a.min(), [(rt((Bd,), "long"), "long")],
+               lambda I: [mn["lb"](z3.IntVal(j)) for mn in I.ex.ghost.get("mins_all", []) for j in range(3)])
         admits("max over a matrix", lambda I, a: M["max"](I, a), lambda a: a.max(), [(xi, "long")],
                lambda I: [mx["ub"](z3.IntVal(i), z3.IntVal(j)) for mx in I.ex.ghost.get("maxes", []) for i in range(3) for j in range(3)])
         admits("integer sum dim 1", lambda I, a: M["sum"](I, a, 1), lambda a: a.sum(1), [(xi, "long")], sum_insts)
